@@ -2,6 +2,11 @@
 //verif:replace@C04b os.Open = c04Open
 //verif:replace@C04b (*os.File).Seek = c04Seek
 //verif:replace@C04b (*os.File).Read = c04Read
+//verif:replace@C04b (*os.File).Close = c04Close
+//verif:replace@C04d os.Open = c04Open
+//verif:replace@C04d (*os.File).Seek = c04Seek
+//verif:replace@C04d (*os.File).Read = c04Read
+//verif:replace@C04d (*os.File).Close = c04Close
 //verif:replace@C04c (*regexp.Regexp).Match = c04Match
 //verif:replace@C04c regexp.Compile = c04Compile
 
@@ -87,28 +92,34 @@ func VerifC04aChunks(n, M int) {
 // ---- C04b: the follow starts at the end of the file ----
 
 var c04Content []byte
-var c04Off int64
+var c04Pos = map[*os.File]int64{}
 
-func c04Open(name string) (*os.File, error) { c04Off = 0; return new(os.File), nil }
+func c04Open(name string) (*os.File, error) {
+	fd := new(os.File)
+	c04Pos[fd] = 0
+	return fd, nil
+}
 func c04Seek(f *os.File, offset int64, whence int) (int64, error) {
 	switch whence {
 	case io.SeekStart:
-		c04Off = offset
+		c04Pos[f] = offset
 	case io.SeekCurrent:
-		c04Off += offset
+		c04Pos[f] += offset
 	case io.SeekEnd:
-		c04Off = int64(len(c04Content)) + offset
+		c04Pos[f] = int64(len(c04Content)) + offset
 	}
-	return c04Off, nil
+	return c04Pos[f], nil
 }
 func c04Read(f *os.File, p []byte) (int, error) {
-	if c04Off >= int64(len(c04Content)) {
+	off := c04Pos[f]
+	if off >= int64(len(c04Content)) {
 		return 0, io.EOF
 	}
-	k := copy(p, c04Content[c04Off:])
-	c04Off += int64(k)
+	k := copy(p, c04Content[off:])
+	c04Pos[f] = off + int64(k)
 	return k, nil
 }
+func c04Close(f *os.File) error { return nil }
 
 // VerifC04bSeek: makeFileReader positions a follow at the end of the existing
 // content and a cat at the start.
@@ -178,5 +189,24 @@ func VerifC04cDrops(t int) {
 		}
 		verifrt.Assert(f.matchCount == uint64(matched) && f.transmitCount == transmitted, "hit / transmit counters differ from the lines seen")
 	}
+	verifrt.Reach("checked")
+}
+
+// VerifC04dTruncationCheck: the periodic truncation check is a pure query:
+// it reports truncation exactly if the follower's position lies beyond the
+// end of the file now at the path, and it leaves the follower's position
+// where it was (moving it would skip or repeat appended data).
+func VerifC04dTruncationCheck(size int) {
+	dlog.VerifInstall(source.Server)
+	c04Content = make([]byte, size)
+	c04Pos = map[*os.File]int64{}
+	f := &readFile{filePath: "/var/log/x", seekEOF: true}
+	fd, _ := os.Open(f.filePath)
+	pos := int64(verifrt.Choose("follower-position", size+3))
+	fd.Seek(pos, io.SeekStart)
+	isTruncated, err := f.truncated(fd)
+	verifrt.Assert(isTruncated == (pos > int64(size)), "truncation verdict differs from 'position beyond the end of the file'")
+	verifrt.Assert(isTruncated == (err != nil), "verdict and error disagree")
+	verifrt.Assert(c04Pos[fd] == pos, "the truncation check moved the follower's read position")
 	verifrt.Reach("checked")
 }
